@@ -48,11 +48,12 @@ Theorem C16_conversion_faithful : forall t v g, convert_arg t v = Some g ->
 Proof. exact conversion_faithful. Qed.
 Print Assumptions C16_conversion_faithful.
 
-(* non-vacuity: func(MyInt, ...MyString) (float64, error) is bridgeable and called with named types *)
+(* non-vacuity: func(MyInt, MyIntB, ...MyString) (float64, error) - two defined types of one kind -
+   is bridgeable and every argument arrives with exactly its parameter's type *)
 Example C16_example :
-  let s := {| params := [mk_t KInt true false]; variadic := Some (mk_t KString true false);
-              results := [mk_t KFloat64 false false; mk_t KIface false true] |} in
+  let s := {| params := [mk_t KInt 1 false; mk_t KInt 13 false]; variadic := Some (mk_t KString 9 false);
+              results := [mk_t KFloat64 0 false; mk_t KIface 0 true] |} in
   bridgeable_function s = true /\
-  option_map (map (fun g => gnamed (vtype g))) (convert_args s [VNum (of_Z 3); VStr (STR "a"); VStr (STR "b")])
-    = Some [true; true; true].
+  option_map (map (fun g => gname (vtype g))) (convert_args s [VNum (of_Z 3); VNum (of_Z 4); VStr (STR "a"); VStr (STR "b")])
+    = Some [1; 13; 9; 9]%N.
 Proof. vm_compute. split; reflexivity. Qed.
